@@ -60,12 +60,36 @@ def cases(ctx):
             ctx.count("class:frequent_category_stored_explicitly")
             yield c
             continue
+        if i % 20 == 9:
+            # nested variables (county after state): one dimension is a coarsening of another, in any order,
+            # so that a category of one covers every row reached through a category of the other
+            n = int(gen.pick(rng, [8, 20, 60]))
+            fine = rng.integers(0, int(rng.integers(3, 7)), size=n).astype(numpy.int64)
+            coarse = fine // 2
+            other = [rng.integers(0, int(rng.integers(2, 4)), size=n).astype(numpy.int64) for _ in range(int(rng.integers(1, 3)))]
+            dense = [coarse, fine] + other
+            order = [int(x) for x in rng.permutation(len(dense))]
+            dense = [dense[j] for j in order]
+            ext = [int(a.max()) + 1 for a in dense]
+            c = {"dense": dense, "commons": [int(rng.integers(0, e + 1)) for e in ext], "shape": None, "extents": ext}
+            c["ncallbacks"] = int(rng.integers(1, 4))
+            c["stride_seed"] = c["edit_seed"] = c["empty_seed"] = None
+            c["via"] = gen.pick(rng, ["interactions", "walk", "walk"])
+            ctx.count("class:nested_dimensions")
+            yield c
+            continue
         c = gen.cube_case(rng, min_dims=1, max_dims=4, max_axes=1, n=gen.pick(rng, [0, 1, 3, 8, 20, 200]))
+        if i % 10 == 3 and 1 <= len(c["dense"]) <= 3:
+            # the same index OBJECT stands for two dimensions (a variable crossed with itself)
+            j = int(rng.integers(0, len(c["dense"])))
+            c["repeat"] = [j, int(rng.integers(0, len(c["dense"]) + 1))]
         c["ncallbacks"] = int(rng.integers(1, 4))
         c["stride_seed"] = int(rng.integers(0, 2 ** 31)) if rng.random() < 0.25 else None
         c["edit_seed"] = int(rng.integers(0, 2 ** 31)) if rng.random() < 0.3 else None
         c["empty_seed"] = int(rng.integers(0, 2 ** 31)) if (c["edit_seed"] is None and rng.random() < 0.15) else None
         c["via"] = gen.pick(rng, ["interactions", "walk"])
+        if c.get("repeat"):
+            c["stride_seed"] = c["edit_seed"] = c["empty_seed"] = None
         yield c
 
 
@@ -130,6 +154,18 @@ def judge(ctx, case):
     dense = [numpy.asarray(d) for d in case["dense"]]
     commons = case["commons"]
     dims = gen.cube_dims(case)
+    cshape = case["shape"]
+    if case.get("repeat"):
+        j, pos = case["repeat"]
+        commons = list(commons)
+        dense.insert(pos, dense[j])
+        commons.insert(pos, commons[j])
+        dims.insert(pos, dims[j])
+        if cshape is not None:
+            cshape = list(cshape)
+            cshape.insert(pos, cshape[j])
+            cshape = tuple(cshape)
+        ctx.count("class:same_index_object_as_two_dimensions")
     n = dense[0].shape[0]
     ctx.count("class:ndims=%d" % len(dense))
     ctx.count("class:n=0" if n == 0 else "class:n>0")
@@ -151,7 +187,7 @@ def judge(ctx, case):
         for d in dims:
             gen.stride_entries(d, r3)
         ctx.count("class:strided_rowid_arrays")
-    cube = catii.ccube(dims, interacting_shape=case["shape"])
+    cube = catii.ccube(dims, interacting_shape=cshape)
     logs = []
     if case["via"] == "interactions":
         ctx.count("via:interactions")
@@ -167,39 +203,39 @@ def judge(ctx, case):
     if ctx.evals % 331 == 1:
         ctx.sample({"dense": dense, "commons": commons, "expected_events": len(exp)})
     feat = "ndims=%d" % len(dense)
-    log = logs[0]
-    seen = {}
-    for coords, rowids in log:
-        if type(coords) is not tuple or len(coords) != len(dense):
-            ctx.violation("coords-shape:" + feat, "callback got coordinates %r" % (coords,), case)
-            return
-        if not isinstance(rowids, numpy.ndarray) or rowids.dtype != U32 or rowids.ndim != 1 or \
-                (len(rowids) > 1 and not numpy.all(rowids[1:] > rowids[:-1])):
-            ctx.violation("rowids-not-increasing-uint32:" + feat, "callback for %r got row ids %r" % (coords, rowids), case)
-            return
-        for v, c in zip(coords, commons):
-            if v == c:
-                ctx.violation("common-presented:" + feat, "the common category %r was presented in %r" % (c, coords), case)
+    for log in logs:          # every callback must have been given every combination exactly once
+        seen = {}
+        for coords, rowids in log:
+            if type(coords) is not tuple or len(coords) != len(dense):
+                ctx.violation("coords-shape:" + feat, "callback got coordinates %r" % (coords,), case)
                 return
-        if coords in seen:
-            ctx.violation("duplicate-event:" + feat, "combination %r presented twice" % (coords,), case)
+            if not isinstance(rowids, numpy.ndarray) or rowids.dtype != U32 or rowids.ndim != 1 or \
+                    (len(rowids) > 1 and not numpy.all(rowids[1:] > rowids[:-1])):
+                ctx.violation("rowids-not-increasing-uint32:" + feat, "callback for %r got row ids %r" % (coords, rowids), case)
+                return
+            for v, c in zip(coords, commons):
+                if v == c:
+                    ctx.violation("common-presented:" + feat, "the common category %r was presented in %r" % (c, coords), case)
+                    return
+            if coords in seen:
+                ctx.violation("duplicate-event:" + feat, "combination %r presented twice" % (coords,), case)
+                return
+            seen[coords] = rowids.tolist()
+            if any(v == -1 for v in coords):
+                ctx.count("events:mixed" if any(v != -1 for v in coords) else "events:all_marginal")
+            else:
+                ctx.count("events:all_uncommon")
+        if seen != exp:
+            missing = [c for c in exp if c not in seen]
+            extra = [c for c in seen if c not in exp]
+            wrong = [c for c in seen if c in exp and seen[c] != exp[c]]
+            kind = "missing-event" if missing else ("extra-event" if extra else "wrong-rowids")
+            marg = (missing or extra or wrong)[0]
+            sub = "marginal" if any(v == -1 for v in marg) else "uncommon"
+            ctx.violation("%s:%s:%s" % (kind, sub, feat),
+                          "callback log differs: missing %r extra %r wrong row ids %r (expected %r got %r)"
+                          % (missing[:3], extra[:3], wrong[:3], exp.get(marg), seen.get(marg)), case)
             return
-        seen[coords] = rowids.tolist()
-        if any(v == -1 for v in coords):
-            ctx.count("events:mixed" if any(v != -1 for v in coords) else "events:all_marginal")
-        else:
-            ctx.count("events:all_uncommon")
-    if seen != exp:
-        missing = [c for c in exp if c not in seen]
-        extra = [c for c in seen if c not in exp]
-        wrong = [c for c in seen if c in exp and seen[c] != exp[c]]
-        kind = "missing-event" if missing else ("extra-event" if extra else "wrong-rowids")
-        marg = (missing or extra or wrong)[0]
-        sub = "marginal" if any(v == -1 for v in marg) else "uncommon"
-        ctx.violation("%s:%s:%s" % (kind, sub, feat),
-                      "callback log differs: missing %r extra %r wrong row ids %r (expected %r got %r)"
-                      % (missing[:3], extra[:3], wrong[:3], exp.get(marg), seen.get(marg)), case)
-        return
     # walking the same cube object again presents the same combinations (no state left behind)
     if case.get("via") == "interactions" and n % 2 == 1:
         again = {c: r.tolist() for c, r in cube.interactions()}
